@@ -86,6 +86,17 @@ def verify_many(rep, items, label="P", timeout_ms=30000, quiet=True, lemma_timeo
                 it.axioms.append(lem.statement)
             else:
                 it.status = "undecided"
+    # ---- vacuity guard: a contradictory precondition (or axiom set) would discharge everything ----
+    cov_jobs, cov_owner = [], []
+    for idx, it in enumerate(its):
+        if it.error or it.eng is None:
+            continue
+        cov_jobs.append(_Ob(f"cover.{it.c.function}{getattr(it.c, 'variant', '')}", list(it.axioms) + list(getattr(it.eng, "pre_pc", [])), z3_false()))
+        cov_owner.append(idx)
+    for r, idx in zip(solve.discharge(cov_jobs, (), 3000, use_cvc5=False) if cov_jobs else [], cov_owner):
+        if r.status == "unsat":          # precondition /\ axioms |- False
+            its[idx].error = ("<vacuous-precondition>", core.EngineError("the precondition and axioms of this contract are contradictory"))
+            rep.error(f"vacuous contract: {its[idx].c.function}{getattr(its[idx].c, 'variant', '')}")
     # ---- batch 2: the obligations generated from the real source ----
     jobs, owner = [], []
     for idx, it in enumerate(its):
@@ -209,6 +220,11 @@ def _report(rep, it, results, label, quiet):
 
 def verify(rep, contract, label="P", canaries=(), timeout_ms=30000, quiet=False, lemma_timeout_ms=30000):
     return verify_many(rep, [(contract, canaries)], label, timeout_ms, quiet, lemma_timeout_ms)[0]
+
+
+def z3_false():
+    import z3
+    return z3.BoolVal(False)
 
 
 def z3_error():
